@@ -11,6 +11,8 @@ ivars == <<minv, maxv, offset, used, last>>
 
 Range == maxv - minv + 1
 GoMod(a, b) == IF a >= 0 THEN a % b ELSE -((-a) % b)      \* Go's % truncates toward zero
+\* setOffset: the argument reduced into 0..Range-1 (non-negative also for a negative argument)
+SetOff(a) == LET m == GoMod(a, Range) IN IF m < 0 THEN m + Range ELSE m
 LiveOf(u) == {o + minv : o \in u}
 
 \* the scan loop of Allocate / Allocate_inRange.  o: current offset, b: offsetBegin.
@@ -32,7 +34,7 @@ Take(r, opname, a, b) ==
 Allocate == /\ Take(Scan(offset, offset, FALSE, 0, 2 * Range + 2), "Allocate", 0, 0)
             /\ UNCHANGED <<minv, maxv>>
 AllocateInRange(a, b) ==
-            /\ Take(Scan(GoMod(a, Range), offset, TRUE, b, 2 * Range + 2), "AllocateInRange", a, b)
+            /\ Take(Scan(SetOff(a), offset, TRUE, b, 2 * Range + 2), "AllocateInRange", a, b)
             /\ UNCHANGED <<minv, maxv>>
 FreeID(id) == /\ IF id < minv \/ id > maxv THEN UNCHANGED used ELSE used' = used \ {id - minv}
               /\ last' = [op |-> "FreeID", ok |-> TRUE, id |-> id, pre |-> LiveOf(used), a |-> 0, b |-> 0, poff |-> offset]
@@ -43,7 +45,7 @@ Init == /\ minv \in MinLo..MaxLo
         /\ offset = 0 /\ used = {}
         /\ last = [op |-> "New", ok |-> TRUE, id |-> 0, pre |-> {}, a |-> 0, b |-> 0, poff |-> 0]
 Next == \/ Allocate
-        \/ \E a \in 0..(maxv + ArgSlack), b \in 0..(maxv + ArgSlack) : AllocateInRange(a, b)
+        \/ \E a \in (0 - ArgSlack)..(maxv + ArgSlack), b \in (0 - ArgSlack)..(maxv + ArgSlack) : AllocateInRange(a, b)
         \/ \E id \in (minv - 1)..(maxv + 1) : FreeID(id)
 Spec == Init /\ [][Next]_ivars
 
@@ -58,7 +60,7 @@ UsedInRange      == used \subseteq 0..(Range - 1)
 \* a freed identifier is allocatable again: after FreeID(id) of an in-range id, an in-range
 \* allocation starting at its offset returns exactly that id
 FreedIsReusable  == (last.op = "FreeID" /\ last.id \in minv..maxv) =>
-                       LET r == Scan(GoMod(last.id - minv, Range), offset, TRUE, -1, 2 * Range + 2)
+                       LET r == Scan(SetOff(last.id - minv), offset, TRUE, 0 - 99, 2 * Range + 2)
                        IN r.ok /\ r.off + minv = last.id
 
 \* ---- refinement: the implementation is an IdAlloc
